@@ -15,6 +15,7 @@ import Osmium.Lemmas.WriterSMLive
 import Osmium.Lemmas.WriterSMQueue
 import Osmium.Lemmas.WriterSMEnd
 import Osmium.Lemmas.WriterSMRank
+import Osmium.Generated.Consts
 
 namespace Osmium.C08
 
@@ -409,5 +410,8 @@ def repairedEmptyBlockRun : St NoState :=
 
 example : repairedEmptyBlockRun.os.file = [1, 2, 3] ∧ CompleteAll repairedEmptyBlockRun ∧
     firstLoud repairedEmptyBlockRun.results = some (.close none {}, .ok 3) := by decide +kernel
+
+/-- Tie of `reliable_write`'s chunk limit to the CURRENT source (regenerated `Generated/Consts.lean`). -/
+theorem consts_tie_writer : maxWrite = Osmium.Generated.Consts.maxWrite := by decide
 
 end Osmium.C08
